@@ -23,6 +23,9 @@ CrsTags == {NoCrs, CrsA, CrsA2, CrsB}
 
 Families ==
   [ crs |-> {[t |-> "crs", crs |-> <<c, sp>>] : c \in {"A", "B", "C"}, sp \in {"int", "epsg", "epsgup", "wkt", "dict", "pyproj", "crsobj", "pickle"}},
+    \* D, E, F: three different systems WITHOUT an EPSG code (two equal-area azimuthal projections with other centres, one sinusoidal), five spellings each
+    crscustom |-> {[t |-> "crs", crs |-> <<c, sp>>] : c \in {"D", "E", "F"}, sp \in {"proj", "pyproj", "wkt", "crsobj", "pickle"}}
+                  \cup {[t |-> "crs", crs |-> <<"A", sp>>] : sp \in {"epsg", "wkt"}},
     \* nudge = index of the coordinate moved by 1e-7 (0: none)
     bbox |-> {[t |-> "bbox", box |-> b, crs |-> c, nudge |-> 0] : b \in {<<0, 0, 4, 4>>, <<1, 0, 4, 4>>, <<0, 1, 4, 4>>, <<0, 0, 5, 4>>, <<0, 0, 4, 5>>}, c \in CrsTags}
             \cup {[t |-> "bbox", box |-> <<0, 0, 4, 4>>, crs |-> c, nudge |-> n] : n \in {1, 4}, c \in {CrsA, CrsA2}},
